@@ -320,7 +320,8 @@ def uttOf (tag : String) : Nat :=
 
 open SSVerif.Align.Wrap in
 /-- the wrapper model (`Wrap.request`) on this request: the events between the previous request and this one are read
-off the tag (new case: fresh decoder state; new utterance: `decoder_start_utt`; `…final`: `decoder_end_utt`), the
+off the tag (new case: fresh decoder state; new utterance: `decoder_start_utt`; `…final`: `decoder_end_utt`;
+`…swapped`: the search was replaced or re-initialised — `replaceSearch`), the
 acoustic model's frame counters off the request line; the harness calls `decoder_alignment` twice, then once per
 `decoder_result_json` call with a level > 0.  The second pass is the model's `populate`/`finish` on the token stack
 dumped in this block. -/
@@ -329,6 +330,8 @@ def wrapStep (_m : Mdl) (r : Req) (D : Dict) (w : WSt) (out : IO.FS.Stream) : IO
   let u := uttOf r.tag
   let d1 := if r.caseId == w.caseId && u != w.utt then startUtt d0 else d0
   let d2 := if r.tag.endsWith "final" then endUtt d1 else d1
+  -- `…swapped`: an accepted grammar-setting call / add_word(update) since the previous request (D130); `…refused`: no event
+  let d2 := if r.tag.endsWith "swapped" then replaceSearch d2 else d2
   let d3 := advance d2 r.outFrame r.nAlloc
   let segsL : List FSeg := r.fp.toList.map fun (wid, sf, ef) => { wid, sf, ef }
   let segs : Option (List FSeg) := if segsL.isEmpty then none else some segsL
